@@ -24,7 +24,12 @@ RULE = ('seq: breadth-first over reference-netlist states (dedup on the full obs
         'raise.  blk: per catalogue block one correct design (all inputs driven by Constant), one design per '
         'undriven top-level input, one per removed internal driver (plain disconnect, and disconnect with the '
         'dangling out-port re-attached to a fresh driven wire), one duplicated driver; expected verdict of '
-        'checkIntegrity from an independent traversal (any in/out port on a wire without source)')
+        'checkIntegrity from an independent traversal (any in/out port on a wire without source).  names: every history of <= D '
+        'calls over the wire-creating APIs (Logic.wire, Wire(), Logic.wires, bidir_wire, Interface.addSourceToSink / addSinkToSource on '
+        'new Interface objects, removeSourceToSink) with names chosen to collide: a call asking for an existing name raises and the '
+        'earlier wire stays, a call with new names succeeds and registers what it hands out; and for 6 library primitives a structural '
+        'user class with the same short class name instantiated before / after the primitive (driver registered, second driver refused, '
+        'integrity check accepts)')
 ASSUMPTIONS = [
     'a parent\'s wires/children are what Logic._wires / Logic.children hold (the anchors\' definition); a wire object '
     'that a refused rename/reparent has taken out of its parent\'s table is recorded as an observation, not a violation',
@@ -678,7 +683,8 @@ def replay_blk(v):
 # ===========================================================================
 
 def shards(tier):
-    return seq_shards(tier) + blk_shards(tier) + [{'part': 'selfdup', 'w': w} for w in ((1, 2, 3) if tier == 'thorough' else (1, 2))]
+    return (seq_shards(tier) + blk_shards(tier) + [{'part': 'selfdup', 'w': w} for w in ((1, 2, 3) if tier == 'thorough' else (1, 2))]
+            + names_shards(tier))
 
 
 def _selfdup_cases(w):
@@ -770,7 +776,207 @@ def run_selfdup(d):
     return res
 
 
+# ===========================================================================
+# part 'names': every way of creating a wire, and blocks whose class shares its short name with another class
+# ===========================================================================
+
+NAME_OPS = [('wire', 'tx_valid'), ('wire', 'x_0'), ('Wire', 'tx_ready'), ('wires', 'x', 2), ('wires', 'tx', 1),
+            ('s2k', 'tx', 'valid'), ('k2s', 'tx', 'ready'), ('s2k', 'x', '0'), ('rm_s2k', 'tx'), ('bidir', 'tx_valid')]
+
+
+def _names_requested(op):
+    k = op[0]
+    if k in ('wire', 'Wire', 'bidir'):
+        return [op[1]]
+    if k == 'wires':
+        return ['%s_%d' % (op[1], i) for i in range(op[2])]
+    if k in ('s2k', 'k2s'):
+        return ['%s_%s' % (op[1], op[2])]
+    return []
+
+
+def _names_do(hw, ifs, op):
+    """-> list of (name, wire object handed to the caller)"""
+    k = op[0]
+    if k == 'wire':
+        return [(op[1], hw.wire(op[1], 1))]
+    if k == 'Wire':
+        return [(op[1], Wire(hw, op[1], 1))]
+    if k == 'bidir':
+        return [(op[1], hw.bidir_wire(op[1], 1))]
+    if k == 'wires':
+        ws = hw.wires(op[1], op[2], 1)
+        return [('%s_%d' % (op[1], i), w) for i, w in enumerate(ws)]
+    if k in ('s2k', 'k2s'):
+        itf = py4hw.Interface(hw, op[1])          # a new Interface object every time (two may share a name)
+        ifs.setdefault(op[1], []).append(itf)
+        w = itf.addSourceToSink(op[2], 1) if k == 's2k' else itf.addSinkToSource(op[2], 1)
+        return [('%s_%s' % (op[1], op[2]), w)]
+    if k == 'rm_s2k':
+        for itf in ifs.get(op[1], []):
+            if itf.sourceToSink:
+                itf.removeSourceToSink(itf.sourceToSink[0][0])
+                break
+        return []
+    raise core.HarnessError('unknown names op %r' % (op,))
+
+
+def run_names_history(hist):
+    """executes the history on a fresh system; statement: a call that asks for a wire whose name already exists in the parent
+    raises and the earlier wire stays; a call whose names are all new does not raise and registers what it hands out.
+    -> (violation kind, detail) or None"""
+    hw = HWSystem()
+    ifs = {}
+    model = {'clk': hw._wires['clk']}
+    for i, op in enumerate(hist):
+        req = _names_requested(op)
+        clash = [n for n in req if n in model]
+        raised = None
+        got = []
+        try:
+            got = _names_do(hw, ifs, op)
+        except core.HarnessError:
+            raise
+        except Exception as e:
+            raised = e
+        for n, w in model.items():
+            if hw._wires.get(n) is not w:
+                return ('earlier-wire-replaced', {'step': i, 'op': list(op), 'name': n})
+        if clash and raised is None:
+            return ('not-raised', {'step': i, 'op': list(op), 'existing_names': clash,
+                                   'handed_out_the_existing_wire': [n for n, w in got if model.get(n) is w]})
+        if not clash and raised is not None and op[0] != 'rm_s2k':
+            return ('refused-without-conflict', {'step': i, 'op': list(op), 'raised': repr(raised)[:160]})
+        # names created before a refusal (wires('x', 2) stops at the first clash) stay: read them back from the parent
+        for n in req:
+            w = hw._wires.get(n)
+            if w is not None and n not in model:
+                model[n] = w
+        for n, w in got:
+            if model.get(n) is not w:
+                return ('handed-out-wire-not-registered', {'step': i, 'op': list(op), 'name': n})
+    return None
+
+
+def _same_name_cases():
+    """a structural (gate-level) user class with the short name of a library primitive, instantiated BEFORE the primitive"""
+    def structural(clsname, nin):
+        def __init__(self, parent, name, ins, r):
+            Logic.__init__(self, parent, name)
+            for i, w in enumerate(ins):
+                self.addIn('i%d' % i, w)
+            self.addOut('r', r)
+            py4hw.Buf(self, 'inner', ins[0], r)
+        return type(clsname, (Logic,), {'__init__': __init__})
+    P = py4hw
+    return {
+        'Buf': (1, lambda hw, n, i, r: P.Buf(hw, n, i[0], r)),
+        'Not': (1, lambda hw, n, i, r: P.Not(hw, n, i[0], r)),
+        'And2': (2, lambda hw, n, i, r: P.And2(hw, n, i[0], i[1], r)),
+        'Mux2': (3, lambda hw, n, i, r: P.Mux2(hw, n, i[0], i[1], i[2], r)),
+        'Reg': (1, lambda hw, n, i, r: P.Reg(hw, n, i[0], r)),
+        'Constant': (0, lambda hw, n, i, r: P.Constant(hw, n, 1, r)),
+    }, structural
+
+
+def run_same_name(res, d):
+    cases, structural = _same_name_cases()
+    for cname, (nin, mk) in cases.items():
+        for first in ('structural', 'primitive'):
+            hw = HWSystem()
+            ins = [hw.wire('i%d' % k) for k in range(max(nin, 1))]
+            for k, w in enumerate(ins):
+                py4hw.Constant(hw, 'ki%d' % k, 0, w)
+            r0, r1 = hw.wire('r0'), hw.wire('r1')
+            S = structural(cname, max(nin, 1))
+            res['evaluations'] += 1
+            res['configs'] += 1
+            try:
+                if first == 'structural':
+                    S(hw, 'user', ins, r0)
+                    prim = mk(hw, 'lib', ins, r1)
+                else:
+                    prim = mk(hw, 'lib', ins, r1)
+                    S(hw, 'user', ins, r0)
+            except Exception as e:
+                # every wire has exactly one driver here (the structural block's own port does not drive): nothing to refuse
+                res['violations'].append({'sig': 'C11:samename:well-formed-netlist-refused:%s' % cname, 'shard': d, 'trace': [cname, first],
+                                          'detail': {'class': cname, 'instantiated_first': first, 'raised': repr(e)[:200]}})
+                core.reset_prepared()
+                continue
+            bad = None
+            if r1.getSource() is None or r1.getSource().parent is not prim:
+                bad = ('driver-not-registered', 'the library %s drives r1 but the wire has no (or another) source' % cname)
+            else:
+                raised = None
+                try:
+                    py4hw.Constant(hw, 'second', 1, r1)
+                except Exception as e:
+                    raised = e
+                if raised is None:
+                    bad = ('not-raised', 'a second driver of r1 was accepted')
+                elif r1.getSource().parent is not prim:
+                    bad = ('earlier-driver-replaced', 'the first driver of r1 is no longer its source')
+                else:
+                    res['distinct_nontrivial'] += 1
+                    # the half-built refused block is a user error already reported; integrity is judged on a clean copy
+                    hw2 = HWSystem()
+                    ins2 = [hw2.wire('i%d' % k) for k in range(max(nin, 1))]
+                    for k, w in enumerate(ins2):
+                        py4hw.Constant(hw2, 'ki%d' % k, 0, w)
+                    a0, a1 = hw2.wire('r0'), hw2.wire('r1')
+                    if first == 'structural':
+                        S(hw2, 'user', ins2, a0)
+                        mk(hw2, 'lib', ins2, a1)
+                    else:
+                        mk(hw2, 'lib', ins2, a1)
+                        S(hw2, 'user', ins2, a0)
+                    try:
+                        with core.quiet():
+                            py4hw.debug.checkIntegrity(hw2)
+                    except Exception as e:
+                        bad = ('integrity-refuses-driven-design', repr(e)[:160])
+            if bad:
+                res['violations'].append({'sig': 'C11:samename:%s:%s' % (bad[0], cname), 'shard': d, 'trace': [cname, first],
+                                          'detail': {'class': cname, 'instantiated_first': first, 'problem': bad[1]}})
+
+
+def run_names(d):
+    import itertools
+    res = {'part': 'names', 'evaluations': 0, 'distinct_nontrivial': 0, 'configs': 0, 'violations': [], 'samples': [],
+           'traces_validated_against_impl': 0, 'transitions': 0, 'distinct_outcomes': 2, 'vacuous_ok': True}
+    if d.get('first') is None:
+        run_same_name(res, d)
+        return res
+    seen = set()
+    for n in range(0, d['D']):
+        for tail in itertools.product(NAME_OPS, repeat=n):
+            hist = [tuple(d['first'])] + list(tail)
+            r = run_names_history(hist)
+            res['evaluations'] += 1
+            res['traces_validated_against_impl'] += 1
+            res['transitions'] += len(hist)
+            names = [x for op in hist for x in _names_requested(op)]
+            if len(names) != len(set(names)):
+                res['distinct_nontrivial'] += 1          # some name is requested twice: one call must raise
+            if r is not None:
+                sig = 'C11:names:%s:%s' % (r[0], r[1]['op'][0])
+                if sig not in seen:
+                    seen.add(sig)
+                    res['violations'].append({'sig': sig, 'shard': d, 'trace': [list(o) for o in hist[:r[1]['step'] + 1]], 'detail': r[1]})
+    if d['first'] == list(NAME_OPS[0]):
+        res['samples'].append({'history': [list(o) for o in hist]})
+    return res
+
+
+def names_shards(tier):
+    D = 4 if tier == 'thorough' else 3
+    return [{'part': 'names', 'first': None}] + [{'part': 'names', 'first': list(op), 'D': D} for op in NAME_OPS]
+
+
 def cost(d):
+    if d['part'] == 'names':
+        return 1 if d.get('first') is None else len(NAME_OPS) ** d['D']
     if d['part'] == 'selfdup':
         return 1
     if d['part'] == 'seq':
@@ -779,12 +985,22 @@ def cost(d):
 
 
 def run_shard(d):
+    if d['part'] == 'names':
+        return run_names(d)
     if d['part'] == 'selfdup':
         return run_selfdup(d)
     return run_seq(d) if d['part'] == 'seq' else run_blk(d)
 
 
 def replay(v):
+    if v['shard'].get('part') == 'names':
+        if v['shard'].get('first') is None:
+            r = {'evaluations': 0, 'configs': 0, 'distinct_nontrivial': 0, 'violations': []}
+            run_same_name(r, v['shard'])
+            hit = [x for x in r['violations'] if x['sig'] == v['sig']]
+            return {'violates': bool(hit), 'detail': hit[:1]}
+        r = run_names_history([tuple(o) for o in v['trace']])
+        return {'history': v['trace'], 'violates': r is not None, 'detail': r}
     if v['shard'].get('part') == 'selfdup':
         r = run_selfdup(v['shard'])
         hit = [x for x in r['violations'] if x['sig'] == v['sig']]
